@@ -39,10 +39,15 @@ const (
 
 var users = map[string]string{"default": "dpw", "alice": "apw", "bob": "bpw", "sent": "spw"}
 
+// ACL users without a password ("ACL SETUSER carol on nopass ..."): they are configured with a user name only and
+// authenticate with an empty password
+var nopassUsers = map[string]string{"carol": "", "dave": "", "sent0": ""}
+
 type cfg struct {
 	kind     string // single | auto-single | redirect | standalone-replicas | cluster | cluster-replicaonly | cluster-sendtoreplicas | sentinel | sentinel-replicaonly
 	server   string // resp3 | nohello | notracking
-	auth     string // none | password | userpass | fn-userpass | fn-password
+	auth     string // none | password | userpass | fn-userpass | fn-password | user-nopass | fn-user-nopass (user name only, empty password)
+	openDef  bool   // the server's default user has no password (sessions start as "default"); only with the named-user auth modes
 	name     bool
 	db       int
 	tracking string // off | default | optin-noloop | bcast-prefix | optout | empty
@@ -55,7 +60,7 @@ type cfg struct {
 }
 
 func (c cfg) String() string {
-	return fmt.Sprintf("kind=%s server=%s auth=%s name=%v db=%d tracking=%s notouch=%v noevict=%v setinfo=%s resp2=%v step=%q later=%v", c.kind, c.server, c.auth, c.name, c.db, c.tracking, c.noTouch, c.noEvict, c.setInfo, c.resp2, c.step, c.later)
+	return fmt.Sprintf("kind=%s server=%s auth=%s opendefault=%v name=%v db=%d tracking=%s notouch=%v noevict=%v setinfo=%s resp2=%v step=%q later=%v", c.kind, c.server, c.auth, c.openDef, c.name, c.db, c.tracking, c.noTouch, c.noEvict, c.setInfo, c.resp2, c.step, c.later)
 }
 
 func (c cfg) cluster() bool  { return strings.HasPrefix(c.kind, "cluster") }
@@ -64,6 +69,10 @@ func (c cfg) replicaOnly() bool {
 	return c.kind == "cluster-replicaonly" || c.kind == "sentinel-replicaonly"
 }
 func (c cfg) disableCache() bool { return c.tracking == "off" }
+func (c cfg) nopass() bool       { return c.auth == "user-nopass" || c.auth == "fn-user-nopass" }
+func (c cfg) namedUser() bool {
+	return c.auth == "userpass" || c.auth == "fn-userpass" || c.nopass()
+}
 
 func (c cfg) trackingOpts() []string {
 	switch c.tracking {
@@ -85,6 +94,9 @@ func (c cfg) creds(addr string) (user, pass string) {
 		return "", ""
 	}
 	if addr == aS {
+		if c.nopass() {
+			return "sent0", ""
+		}
 		return "sent", "spw"
 	}
 	switch c.auth {
@@ -96,8 +108,30 @@ func (c cfg) creds(addr string) (user, pass string) {
 		return "bob", "bpw"
 	case "fn-password":
 		return "default", "dpw"
+	case "user-nopass":
+		return "carol", ""
+	case "fn-user-nopass":
+		return "dave", ""
 	}
 	return "", ""
+}
+
+// serverUsers is the ACL of the generated server.
+func (c cfg) serverUsers() map[string]string {
+	if c.auth == "none" {
+		return nil
+	}
+	m := map[string]string{}
+	for k, v := range users {
+		if k == "default" && c.openDef {
+			continue
+		}
+		m[k] = v
+	}
+	for k, v := range nopassUsers {
+		m[k] = v
+	}
+	return m
 }
 
 func (c cfg) options(s *fakeredis.Server) rueidis.ClientOption {
@@ -108,7 +142,7 @@ func (c cfg) options(s *fakeredis.Server) rueidis.ClientOption {
 		o.Sentinel.MasterSet = "mymaster"
 		o.Sentinel.ClientName = "sentinel-conn"
 		if c.auth != "none" {
-			o.Sentinel.Username, o.Sentinel.Password = "sent", "spw"
+			o.Sentinel.Username, o.Sentinel.Password = c.creds(aS)
 		}
 	case c.cluster():
 		o = drv.Option(s, aP1, aP2)
@@ -133,7 +167,9 @@ func (c cfg) options(s *fakeredis.Server) rueidis.ClientOption {
 		o.Password = "dpw"
 	case "userpass":
 		o.Username, o.Password = "alice", "apw"
-	case "fn-userpass", "fn-password":
+	case "user-nopass":
+		o.Username = "carol"
+	case "fn-userpass", "fn-password", "fn-user-nopass":
 		o.AuthCredentialsFn = func(ac rueidis.AuthCredentialsContext) (rueidis.AuthCredentials, error) {
 			u, p := c.creds(ac.Address.String())
 			if c.auth == "fn-password" && u == "default" {
@@ -381,9 +417,7 @@ func (w *world) client(cl rueidis.Client) {
 func (w *world) body() {
 	c := w.c
 	opts := fakeredis.Options{LogReplies: true, Seed: int64(w.id), NoHello: c.server == "nohello", NoTracking: c.server == "notracking"}
-	if c.auth != "none" {
-		opts.Users = users
-	}
+	opts.Users = c.serverUsers()
 	var s *fakeredis.Server
 	switch {
 	case c.cluster():
@@ -669,6 +703,12 @@ func (w *world) check(log []fakeredis.Event) {
 			run.Violation("session-mismatch", keyBase+"|"+strings.Join(what, ","), wit(map[string]any{"mismatch": bad}))
 		}
 		run.Observe("sessions_inspected_at_first_user_command", 1)
+		if c.nopass() {
+			run.Observe("sessions_of_username_only_credentials_inspected", 1)
+			if in.sess.Proto == 2 {
+				run.Observe("resp2_sessions_of_username_only_credentials_inspected", 1)
+			}
+		}
 		if in.sess.ReadOnly {
 			run.Observe("readonly_sessions", 1)
 		}
@@ -709,6 +749,47 @@ func (w *world) check(log []fakeredis.Event) {
 		run.Observe("setup_sequences_checked", 1)
 	}
 
+	// ---- 2b. every setup attempt of every connection (data node or sentinel, whether or not it went on to serve user
+	// commands) carries the credentials configured for that node: the RESP3 attempt inside HELLO 3, the RESP2 sequence
+	// as an AUTH command in front of HELLO 2
+	for id, f := range facts {
+		user, pass := c.creds(f.node)
+		if user == "" {
+			continue
+		}
+		_, r2 := c.setupCmds(f.node, false)
+		helloAuth := "HELLO 3 AUTH " + user + " " + pass
+		authSeen := false
+		for _, cmd := range f.setup {
+			attempt, ok := "", true
+			switch {
+			case strings.HasPrefix(cmd, "AUTH"):
+				if cmd == r2[0] {
+					authSeen = true
+				}
+				continue
+			case strings.HasPrefix(cmd, "HELLO 3"):
+				attempt, ok = "resp3", cmd == helloAuth || strings.HasPrefix(cmd, helloAuth+" SETNAME ")
+			case cmd == "HELLO 2":
+				attempt, ok = "resp2", authSeen
+				authSeen = false
+			default:
+				continue
+			}
+			if !ok {
+				run.Violation("credentials-not-sent", keyBase+"|auth="+c.auth+"|attempt="+attempt, w.wit(map[string]any{"connection": id, "node": f.node,
+					"credentials": user + " / " + strconv.Quote(pass), "setup_commands_received": f.setup, "connection_log": w.connLog(log, f.node, id)}))
+			}
+			run.Observe("setup_attempts_checked_for_credentials", 1)
+			if pass == "" {
+				run.Observe(attempt+"_setup_attempts_with_username_only_credentials", 1)
+				if c.openDef {
+					run.Observe(attempt+"_setup_attempts_with_username_only_credentials_and_open_default_user", 1)
+				}
+			}
+		}
+	}
+
 	// ---- 3. sentinel connections: sentinel credentials, sentinel client name, db 0
 	if c.sentinel() && w.newErr == nil {
 		n := 0
@@ -719,7 +800,7 @@ func (w *world) check(log []fakeredis.Event) {
 			n++
 			u := "default"
 			if c.auth != "none" {
-				u = "sent"
+				u, _ = c.creds(aS)
 			}
 			if si.User != u || si.Name != "sentinel-conn" || si.DB != 0 {
 				run.Violation("sentinel-session-mismatch", keyBase, w.wit(map[string]any{"session": fmt.Sprintf("%+v", si)}))
@@ -809,7 +890,7 @@ func (w *world) check(log []fakeredis.Event) {
 
 func pick[T any](r *rand.Rand, xs ...T) T { return xs[r.Intn(len(xs))] }
 
-func genCfg(r *rand.Rand, i int) cfg {
+func genCfg(r, rx *rand.Rand, i int) cfg {
 	kinds := []string{"single", "auto-single", "redirect", "standalone-replicas", "cluster", "cluster-replicaonly", "cluster-sendtoreplicas", "sentinel", "sentinel-replicaonly"}
 	c := cfg{kind: kinds[i%len(kinds)]}
 	c.server = pick(r, "resp3", "resp3", "resp3", "nohello", "notracking")
@@ -839,13 +920,27 @@ func genCfg(r *rand.Rand, i int) cfg {
 		c.step = st
 		c.later = (c.kind == "single" || c.kind == "auto-single") && r.Intn(2) == 0
 	}
+	// credentials that consist of a user name only (ACL user with nopass), statically or from AuthCredentialsFn, and
+	// servers whose default user needs no password (a session that never authenticates is then a working session of
+	// the wrong user). Drawn from a stream of their own (the step above depends only on the number of setup commands,
+	// which is the same with and without a password).
+	half, open := rx.Intn(2) == 0, rx.Intn(2) == 0
+	if half {
+		switch c.auth {
+		case "userpass":
+			c.auth = "user-nopass"
+		case "fn-userpass":
+			c.auth = "fn-user-nopass"
+		}
+	}
+	c.openDef = open && c.namedUser()
 	return c
 }
 
 func TestC47(t *testing.T) {
 	run := mon.Start(t, "C47", "fault_enumeration",
 		"random points of {9 client kinds (single, auto-detected single, standalone with redirect, standalone with replicas, cluster, cluster ReplicaOnly, cluster SendToReplicas, sentinel, sentinel ReplicaOnly)} x {RESP3, no-HELLO, no-tracking server} x "+
-			"{no auth, password, user+password, AuthCredentialsFn x2} x ClientName x SelectDB x {DisableCache, default tracking, 4 ClientTrackingOptions} x NO-TOUCH x NO-EVICT x {default, custom, disabled SETINFO} x AlwaysRESP2 x "+
+			"{no auth, password, user+password, user name only (user without password), AuthCredentialsFn x3 (password, user+password, user name only)} x {default user with, without password} x ClientName x SelectDB x {DisableCache, default tracking, 4 ClientTrackingOptions} x NO-TOUCH x NO-EVICT x {default, custom, disabled SETINFO} x AlwaysRESP2 x "+
 			"{no fault, one setup step answered with an error on every connection or on every connection but the first}; five user commands per case over the pipelined, dedicated and streaming connections; a case = the whole tuple plus its outcome")
 	defer run.Finish()
 	run.Assume("fakeredis keeps a per-connection session record (user, name, db, tracking, readonly, no-touch, no-evict, lib info, protocol) that reflects exactly the setup commands it answered OK")
@@ -853,9 +948,11 @@ func TestC47(t *testing.T) {
 	defer rueidis.VerifSetQueueType("")
 	n := run.N(1200, 20000)
 	base := run.Rand("cases").Int63()
+	baseX := run.Rand("credentials").Int63()
 	for i := 0; i < n; i++ {
 		r := rand.New(rand.NewSource(base + int64(i)*6151))
-		w := &world{run: run, id: i, c: genCfg(r, i)}
+		rx := rand.New(rand.NewSource(baseX + int64(i)*7919))
+		w := &world{run: run, id: i, c: genCfg(r, rx, i)}
 		dl, stacks := drv.Bubble(t, w.body)
 		if dl != "" {
 			run.Violation("hang-or-leak", w.c.kind+"|server="+w.c.server+"|step="+w.c.step, w.wit(map[string]any{"synctest": dl, "rueidis_frames": drv.RueidisFrames(stacks), "stacks": drv.Tail(stacks, 9000)}))
@@ -869,5 +966,6 @@ func TestC47(t *testing.T) {
 		}
 	}
 	run.Require("sessions_inspected_at_first_user_command", "setup_sequences_checked", "sentinel_sessions_checked", "errnocache_refusals", "refused_after_failed_step", "all_calls_served",
-		"tolerated_failures_survived", "injected_step_failures", "readonly_sessions", "resp2_sessions", "tolerated_step_errors_seen")
+		"tolerated_failures_survived", "injected_step_failures", "readonly_sessions", "resp2_sessions", "tolerated_step_errors_seen",
+		"resp2_setup_attempts_with_username_only_credentials", "resp2_setup_attempts_with_username_only_credentials_and_open_default_user", "resp3_setup_attempts_with_username_only_credentials")
 }
